@@ -261,11 +261,13 @@ theorem coarse_triangulation_half_edges (faces : List (List Nat)) (n : Nat) :
     heM (coarseFaces n faces) = heP faces + spokes faces n := heM_coarse faces n
 
 /-- **planar faces keep their signed volume**: the fan of a planar polygon around the mean of its corners contributes the
-    same (6 ×) signed volume as the fan around any point `b` of the plane of the polygon (e.g. a corner) -/
+    same (6 ×) signed volume as the fan around any point `b` of the plane of the polygon (e.g. a corner) — in the loop of
+    `compute_volume`, whose coordinates are relative to the reference point `o` of the whole surface, for EVERY `o`
+    (`o = 0`: the un-centred determinants) -/
 theorem coarse_triangulation_volume_planar (pos : Nat → V3 R) (f : List Nat) (c : Nat) (hne : f ≠ []) (b : V3 R)
-    (hc : pos c = centre pos f) (hplanar : ∀ i ∈ f, V3.dot (pos i - b) (polyNormal pos f) = 0) :
-    volSum pos (fanTris f c) = fanSum pos f b := by
-  rw [volSum_fanTris, hc]; exact fan_volume_planar pos f hne b hplanar
+    (hc : pos c = centre pos f) (hplanar : ∀ i ∈ f, V3.dot (pos i - b) (polyNormal pos f) = 0) (o : V3 R) :
+    volSumAt pos o (fanTris f c) = fanSum (rel pos o) f (b - o) := by
+  rw [volSumAt_fanTris, fanSum_rel, fanSum_rel, hc, fan_volume_planar pos f hne b hplanar]
 
 /-- the surface that is sampled (the coarse triangulation of the input, through `convert_mesh_to_cell`) has passed the gate:
     it is closed and its windings — hence the normals given to the sample points and used by ball pivoting — point outward,
